@@ -46,6 +46,8 @@ def run_standard(mod, ctx):
         t = time.time()
         if hasattr(mod, "MODEL_OUT"):       # generator already ran the model interactively (stateful histories)
             model_out = mod.MODEL_OUT
+        elif hasattr(mod, "MODEL_RUN"):     # module-specific way of running the model (e.g. split over processes)
+            model_out = mod.MODEL_RUN(ctx, lines)
         else:
             model_out = vcore.run_model(ctx, lines)
         ctx.log("model ran %d ops in %.1fs" % (len(lines), time.time() - t))
